@@ -39,16 +39,20 @@ func (t PredefinedTopics) GetTopicName(clientID string, topicID uint16) (string,
 
 // GetTopicID returns a topic ID for the given clientID and topic.
 func (t PredefinedTopics) GetTopicID(clientID, topic string) (uint16, bool) {
-	if tClient, ok := t[clientID]; ok {
-		for topicID, topicName := range tClient {
-			if topicName == topic {
-				return topicID, true
-			}
+	tClient := t[clientID]
+	for topicID, topicName := range tClient {
+		if topicName == topic {
+			return topicID, true
 		}
 	}
 	if tAll, ok := t["*"]; ok {
 		for topicID, topicName := range tAll {
 			if topicName == topic {
+				// A "*" entry shadowed by a client-specific entry with the same
+				// topicID is not visible to the client (see GetTopicName).
+				if _, shadowed := tClient[topicID]; shadowed {
+					continue
+				}
 				return topicID, true
 			}
 		}
